@@ -19,7 +19,7 @@ From RU Require Import Base.Prelude Base.Utf8 Model.AsciiSet Gen.Tables Model.Pe
   Proofs.C01_EqAsm Proofs.C01_EqShape Proofs.C01_KnownExact Proofs.C01_EqCover
   Proofs.C03_ReachParts
   Proofs.C07_Defs Proofs.C07_Histories Proofs.C07_Corr Proofs.C07_SpecProto Proofs.C07_EqSix
-  Proofs.C07_EqHostname Proofs.C07_EqSeven
+  Proofs.C07_EqFive Proofs.C07_EqHostname Proofs.C07_EqSeven
   Proofs.C07_EqRel Proofs.C07_SpecInv Proofs.C07_ParseExtra.
 
 (* ---------- the hypotheses on the host functions ---------- *)
@@ -140,6 +140,79 @@ Proof.
     rewrite <- Rsch in Hshape at 1. change str_file with s_file in Hshape. rewrite Hnf in Hshape.
     cbn [negb orb] in Hshape. unfold sp_base_ok in Hshape.
     apply andb_true_iff in Hshape. exact (proj2 Hshape).
+Qed.
+
+(* ---------- href: the parser without a base ---------- *)
+(* the one arm of C01 that is not an agreement: a URL whose serialization exceeds u32::MAX bytes - the model
+   answers Err(Overflow) and keeps the old URL, the Standard sets the new one *)
+Definition href_fits (v : list N) : Prop :=
+  match spec_basic_url_parse shp v None with
+  | BDone su' => nlen (get_href shs su') <= U32_MAX_P
+  | _ => True
+  end.
+
+Theorem href_step u su v : corrS dbg shs u su -> usv_list v -> known_c07 u QHref v = 0 -> href_fits v ->
+  exists u' su', model_set dbg hp ho hd QHref u v = Some u' /\ spec_step shp QHref su v = Some su'
+    /\ corrS dbg shs u' su'.
+Proof.
+  intros C Hv Hk Hfit. cbn [known_c07] in Hk.
+  assert (known_c01 None v = 0) as Hk1.
+  { destruct (known_c01 None v =? 0) eqn:E; [apply N.eqb_eq; exact E | lia]. }
+  clear Hk. unfold href_fits in Hfit.
+  destruct (statement_all dbg hp ho hd shp shs v None None Hv I Hk1 (host_hyp3_all None v)) as [A _].
+  unfold spec_step. cbn [setter_of_q spec_set model_set]. unfold agree_good in A.
+  destruct (spec_basic_url_parse shp v None) as [su'|uf|] eqn:Hs.
+  - destruct A as [_ [[Ho Hl]|(u' & Hp & _)]]; [lia|].
+    rewrite Hp. exists u', su'. split; [reflexivity|]. split; [reflexivity|].
+    destruct (parse_all_corrS v u' Hv Hk1 Hp) as (su2 & Hs2 & C2). rewrite Hs in Hs2. injection Hs2 as <-. exact C2.
+  - destruct A as [e A]. rewrite A. exists u, su. split; [reflexivity|]. split; [reflexivity | exact C].
+  - contradiction.
+Qed.
+
+(* ---------- eight setters ---------- *)
+Fixpoint eight_ops (ops : list (qsetter * list N)) : Prop :=
+  match ops with
+  | [] => True
+  | (s, v) :: r => (seven s = true \/ (s = QHref /\ href_fits v)) /\ usv_list v /\ eight_ops r
+  end.
+
+Theorem eight_step u su s v : corrS dbg shs u su -> (seven s = true \/ (s = QHref /\ href_fits v)) -> usv_list v ->
+  known_c07 u s v = 0 ->
+  exists u' su', model_set dbg hp ho hd s u v = Some u' /\ spec_step shp s su v = Some su' /\ corrS dbg shs u' su'.
+Proof.
+  intros C [Hs|[-> Hf]] Hv Hk.
+  - exact (seven_step dbg hp ho hd shp shs (proj1 HP) u su s v C Hs Hv Hk).
+  - exact (href_step u su v C Hv Hk Hf).
+Qed.
+
+Lemma eight_run : forall ops u su, corrS dbg shs u su -> eight_ops ops -> outside_known dbg hp ho hd u ops ->
+  exists u' su', model_run dbg hp ho hd u ops = Some u' /\ spec_run shp su ops = Some su' /\ corrS dbg shs u' su'.
+Proof.
+  induction ops as [|[s v] r IH]; intros u su C Hf Ho.
+  - exists u, su. cbn [model_run spec_run]. auto.
+  - cbn [eight_ops outside_known] in Hf, Ho. destruct Hf as (Hs & Hv & Hr). destruct Ho as [Hk Hrest].
+    destruct (eight_step u su s v C Hs Hv Hk) as (u1 & su1 & Em & Es & C1).
+    rewrite Em in Hrest. destruct (IH u1 su1 C1 Hr Hrest) as (u2 & su2 & Em2 & Es2 & C2).
+    exists u2, su2. cbn [model_run spec_run]. rewrite Em, Es. auto.
+Qed.
+
+Lemma eight_ops_firstn n : forall ops, eight_ops ops -> eight_ops (firstn n ops).
+Proof.
+  induction n as [|n IH]; intros ops H; [exact I|]. destruct ops as [|[s v] r]; [exact I|].
+  cbn [firstn eight_ops] in *. destruct H as (A & B & Cc). auto.
+Qed.
+
+Theorem eight_histories ops u su : corrS dbg shs u su -> eight_ops ops -> outside_known dbg hp ho hd u ops ->
+  forall n, exists u' su',
+    model_run dbg hp ho hd u (firstn n ops) = Some u'
+    /\ spec_run shp su (firstn n ops) = Some su'
+    /\ corrS dbg shs u' su'
+    /\ model_api dbg u' = Some (spec_api_list shs su').
+Proof.
+  intros C Hf Ho n.
+  destruct (eight_run (firstn n ops) u su C (eight_ops_firstn n ops Hf) (outside_known_firstn dbg hp ho hd n ops u Ho))
+    as (u' & su' & A & B & C').
+  exists u', su'. split; [exact A|]. split; [exact B|]. split; [exact C'|]. exact (corr_api dbg shs u' su' (proj1 C')).
 Qed.
 
 (* ---------- C07_statement restricted to the seven setters ---------- *)
